@@ -404,7 +404,7 @@ def run(P, R, tier):
             keeps = built and astq.arg_of(root, kw='geometry') is not None
             R.check(not built or keeps, 'C20.e', rr, st_, 'the frame sjoin works on descends from its argument through pandas methods (the active geometry travels with it)',
                     f'`{norm(st_)[:90]}` re-constructs the frame with `{norm(root.func) if built else ""}(...)` and no geometry=: the active geometry is re-derived (first geometry column), so the '
-                    'join uses another geometry column than the caller made active', construct=f'_record_reset_index: {norm(v_)[:40]}')
+                    'sjoin uses another geometry column than the caller made active', construct=f'_record_reset_index: {norm(v_)[:40]}')
     pk = P.func('spatialpandas.dask', 'DaskGeoDataFrame.pack_partitions_to_parquet')
     okpk = False
     for s_ in walk_own(pk.node):
